@@ -34,10 +34,11 @@ def run_stages(prop, argv, stages_for_tier, level="model_checking", assumptions=
         tot["executions"] += extra_cov.get("transitions", 0)
         if not extra_cov.get("exhaustive", True):
             exhaustive = False
-    for st in stages:
+    for si, st in enumerate(stages):
         exe = driver.harness(st["harness"], st["variant"])
         left = total - (time.time() - t0)
-        dl = max(5.0, min(left, total * st.get("share", 1.0)))
+        later = sum(x.get("reserve", 0) for x in stages[si + 1:])
+        dl = max(5.0, min(left - later, total * st.get("share", 1.0)))
         ts = time.time()
         res = driver.run_configs(exe, st["configs"], common=st.get("common", []), deadline_s=dl,
                                  env=st.get("env"), order_seed=seed, chunk=st.get("chunk"))
